@@ -67,6 +67,33 @@ def impl(case):
     if case.get("default_style"):
         del kw["style"]
     rt = RenderTree(start, **kw)
+    # earlier, abandoned uses of the same RenderTree object: every rendering starts afresh, whatever happened before
+    for prior in case.get("prior", ()):
+        if prior["kind"] == "break":
+            seen = 0
+            for _row in rt:
+                seen += 1
+                if seen >= prior["k"]:
+                    break
+        elif prior["kind"] == "raise":
+            calls = [0]
+
+            def boom(node, calls=calls, k=prior["k"]):
+                calls[0] += 1
+                if calls[0] >= k:
+                    raise KeyError("user callable")
+                return "x"
+            try:
+                rt.by_attr(boom)
+            except KeyError:
+                pass
+        elif prior["kind"] == "next":
+            it = iter(rt)
+            for _ in range(prior["k"]):
+                try:
+                    next(it)
+                except StopIteration:
+                    break
     rows = [[pre, fill, node.label] for pre, fill, node in rt]
     mode = case.get("mode", "str")
     lines = {l: ls for l, ls in case["lines"]}
